@@ -4,8 +4,8 @@ package c05
 
 import (
 	"fmt"
-	"os"
 	"go/types"
+	"os"
 	"sort"
 	"strings"
 	"time"
@@ -95,9 +95,12 @@ func run(c *props.Ctx) {
 		x.runControls()
 	}
 	c.R.Extra["analysis_s"] = time.Since(t0).Seconds()
-	c.R.Floor("MAT-1", 5)
-	c.R.Floor("FACE-1", 1)
-	c.R.Floor("OWN-2", 4)
+	// vacuity floors: a bit under what was confirmed by hand on the pinned tree
+	// (and under what the behaviour-preserving refactors of REPORT.md produce)
+	for rule, n := range map[string]int{"MAT-1": 5, "FACE-1": 1, "OWN-2": 4, "AXIS-3": 3, "BASE-1": 2, "CORNER-R": 2, "FORM-1": 1, "GROUP-1": 1,
+		"GROUP-R": 2, "IDX-1": 2, "IDX-3": 1, "MAT-2": 1, "ONE-W": 1, "STREAM-R": 5, "STREAM-W": 2, "TOK-R": 3, "TOK-W": 1, "TXT-1": 8, "USEMTL-R": 1} {
+		c.R.Floor(rule, n)
+	}
 }
 
 func (x *ctx) readerRules(root *ssa.Function, ctl bool) {
